@@ -4,6 +4,7 @@ package main
 
 import (
 	"encoding/json"
+	"fmt"
 
 	"github.com/pion/rtp"
 )
@@ -145,6 +146,7 @@ func runC05(raw json.RawMessage, w *Writer) {
 	for _, op := range c.Ops {
 		var err error
 		val := pat(op.Len, op.Salt+op.ID)
+		before := fmt.Sprintf("%+v", *h)
 		r, _ := guard(func() {
 			switch op.Op {
 			case "set":
@@ -158,6 +160,6 @@ func runC05(raw json.RawMessage, w *Writer) {
 			}
 		})
 		w.Emit(Ev{"ev": op.Op, "id": op.ID, "len": op.Len, "salt": op.Salt + op.ID, "src": op.Src, "res": outcome(r, err),
-			"obs": c05Obs(h), "wire": c05Wire(h)})
+			"struct_unchanged": fmt.Sprintf("%+v", *h) == before, "obs": c05Obs(h), "wire": c05Wire(h)})
 	}
 }
